@@ -79,7 +79,9 @@ var rootDefaults = map[string]string{"version": "1.1", "x": "0", "y": "0", "pres
 // default-valued root attributes, type=text/css on style, empty defs, DOCTYPE without
 // internal subset; inline mode also drops the root xmlns.
 func strip(n *node, isRoot, inline bool) *node {
-	out := &node{name: n.name, text: n.text, cdata: n.cdata, doctype: n.doctype}
+	// an element written with the svg: prefix is the same element as the unprefixed one (documented
+	// normalisation of the minifier; the SVG namespace is the default namespace of the document)
+	out := &node{name: strings.TrimPrefix(n.name, "svg:"), text: n.text, cdata: n.cdata, doctype: n.doctype}
 	for _, a := range n.attrs {
 		p := prefix(a.Name)
 		v := xmlinfo.NormalizeAttr(a.Raw)
@@ -158,6 +160,8 @@ func sameDim(a, b string) bool {
 	return x.Equal(y) && ux == uy
 }
 
+var exactAttrs = map[string]bool{"id": true, "class": true, "href": true, "xlink:href": true, "name": true, "xml:lang": true, "lang": true, "type": true, "xlink:title": true, "inkscape:label": true}
+
 var colorAttrs = map[string]bool{"fill": true, "stroke": true, "stop-color": true, "flood-color": true, "lighting-color": true, "color": true, "solid-color": true}
 
 func numbers(s string) ([]numref.Num, bool) {
@@ -211,6 +215,11 @@ func sameAttr(elem, name, a, b string) (bool, string) {
 		return false, "colour differs"
 	case name == "style":
 		return collapseOutsideQuotes(a) == collapseOutsideQuotes(b), "style value differs"
+	}
+	if exactAttrs[name] {
+		// identifiers and references are strings, whatever they look like: id="1000" and
+		// xlink:href="#1000" stop matching when one of them is rewritten as a number
+		return false, "identifier or reference rewritten"
 	}
 	if sameDim(a, b) {
 		if _, _, ok := splitDim(a); ok {
@@ -439,6 +448,10 @@ var childItems = []string{
 	`<text xml:space="preserve"> a  b </text>`, `<text> a  b </text>`, `<text>a<tspan> b </tspan> c</text>`, `<foreignObject><p xmlns="http://www.w3.org/1999/xhtml"> x  y </p></foreignObject>`,
 	`<defs/>`, `<defs></defs>`, `<defs><g id="a"/></defs>`, `<!-- c -->`, `<?pi x?>`, ` `, "\n", `<a xlink:href="x" xml:lang="en" inkscape:label="l"><path d="m0 0h1v1z"/></a>`,
 	`<g fill="url(#p)" stroke="lightslateblue" color="BlanchedAlmond"/>`, `<linearGradient><stop offset="0.50" stop-color="#ffffff"/></linearGradient>`, `<image width="1" height="1" xlink:href="data:image/png;base64,AAAA"/>`,
+	// identifiers that look like numbers, together with a reference to them
+	`<g id="1000"/><use xlink:href="#1000"/>`, `<rect id="1.0" class="010 1e3" width="1000" height="0.50"/>`,
+	// prefixed SVG elements: both tags of an element must keep (or lose) the prefix together
+	`<svg:g xmlns:svg="http://www.w3.org/2000/svg"><svg:path d="M0 0L1 1"/></svg:g>`,
 }
 
 var prologs = []string{"", `<?xml version="1.0" encoding="UTF-8"?>` + "\n", `<!DOCTYPE svg PUBLIC "-//W3C//DTD SVG 1.1//EN" "http://www.w3.org/Graphics/SVG/1.1/DTD/svg11.dtd">`, `<!DOCTYPE svg [<!ENTITY e "v">]>`}
